@@ -64,6 +64,19 @@ FAMILY = [
     "{% if a %}{% if b %}{% set x = 1 %}{% set y = 2 %}{% else %}{% set y = 1 %}{% set z = 2 %}{% endif %}{% endif %}{{ x }}{{ y }}{{ z }}",
     "{% autoescape true %}{% set a = 1 %}{% set b = 2 %}{{ a|e }}{{ b|upper }}{% endautoescape %}",
     "{% do a.append(1) %}{% set b = 1 %}{% set c = 2 %}{% break_ %}".replace("{% break_ %}", ""),
+    # special names used together in one block / macro / loop
+    "{% extends 'base' %}{% block a %}{{ self.b() }}{{ super() }}{% endblock %}{% block b %}{{ super.super() }}{{ self.a() }}{{ x }}{% endblock %}",
+    "{% block a %}{{ self.a }}{{ super() }}{{ loop }}{{ caller }}{{ varargs }}{{ kwargs }}{% endblock %}",
+    "{% for a in x %}{{ loop.index }}{{ self.b() }}{{ super }}{% endfor %}",
+    # local context dumps: include / import with context / scoped blocks below scopes that store several names
+    "{% for a in x %}{% set p = 1 %}{% set q = 2 %}{% with r = 3, s = 4 %}{% include 'inc' %}{% endwith %}{% endfor %}",
+    "{% for a, b in x %}{% for c, d in y %}{% include 'inc' %}{% from 'm' import f with context %}{% endfor %}{% endfor %}",
+    "{% macro m(a, b, c) %}{% set d = 1 %}{% include 'inc' %}{% import 'm' as mm with context %}{{ mm.f() }}{% endmacro %}",
+    "{% for a in x %}{% set p = 1 %}{% set q = 2 %}{% block bl scoped %}{{ a }}{{ p }}{{ q }}{% endblock %}{% endfor %}",
+    "{% with a = 1, b = 2 %}{% for c in x %}{% set d = c %}{% block bl scoped %}{{ a }}{{ b }}{{ c }}{{ d }}{% endblock %}{% include ['i1', 'i2'] %}{% endfor %}{% endwith %}",
+    "{% call(a, b) m() %}{% set c = 1 %}{% set d = 2 %}{% include 'inc' %}{% endcall %}",
+    "{% set a = 1 %}{% set b = 2 %}{% set c = 3 %}{% include 'inc' %}{% from 'm' import f with context %}{% import 'n' as nn with context %}",
+    "{% filter upper %}{% set a = 1 %}{% set b = 2 %}{% for c in x %}{% include 'inc' %}{% endfor %}{% endfilter %}",
 ]
 
 
@@ -77,6 +90,17 @@ def envs():
         ("async", jinja2.Environment(extensions=ext, enable_async=True)),
         ("sandbox-unopt", SandboxedEnvironment(extensions=ext, optimized=False)),
     ]
+
+
+def corpus_sources():
+    """every distinct template source of the shared corpus (statement programs, inheritance chains, include/import)."""
+    from vf import corpus
+
+    seen = {}
+    for it in corpus.items("small"):
+        for src in it.sources.values():
+            seen.setdefault(src, None)
+    return list(seen)
 
 
 def more_templates():
@@ -170,9 +194,10 @@ def run(ctx: core.Ctx):
                 f"{bound} iteration point(s) of the owned sets; distinct = distinct (template, environment, #points, source hash)")
     ctx.assumptions += ["sets that feed code generation are created through the name `set` in idtracking/compiler/ext",
                         "PYTHONHASHSEED subprocesses are a non-exhaustive cross-check of the un-owned remainder"]
-    fam = FAMILY + (more_templates() if not ctx.quick else more_templates()[:100])
+    extra = corpus_sources()
+    fam = FAMILY + (more_templates() if not ctx.quick else more_templates()[:100]) + extra
     ctx.pmap(shard, [(i, s, bound if i < len(FAMILY) else 1) for i, s in enumerate(fam)])
-    ctx.cov["bounds"] = {"deviation_bound": bound, "family": len(FAMILY), "generator_programs": len(fam) - len(FAMILY)}
+    ctx.cov["bounds"] = {"deviation_bound": bound, "family": len(FAMILY), "generator_programs": len(fam) - len(FAMILY) - len(extra), "corpus_sources": len(extra)}
     # real hash seeds (cross-check)
     results = {}
     for seed in range(8):
